@@ -58,20 +58,21 @@ Proof.
   destruct (print_g (w_P c) b); [congruence | reflexivity].
 Qed.
 
-(* the two literal rules of _GD_TokToNum, both reader variants (tree independent) *)
-Lemma subnormal_variants :
-  stableb_gen false false 17 d_sub = false /\ stableb_gen false true 17 d_sub = false /\
-  stableb_gen true false 17 d_sub = true /\ stableb_gen true true 17 d_sub = true.
-Proof. repeat split; vm_compute; reflexivity. Qed.
+(* the literal rules of _GD_TokToNum, all reader variants (tree independent):
+   a subnormal literal is read back iff ERANGE results are accepted (rule 1 or 2),
+   -0.0 iff an integer zero is left to strtod *)
+Lemma subnormal_variants : forall zf pu,
+  stableb_gen 0 zf pu 17 d_sub = false /\ stableb_gen 1 zf pu 17 d_sub = true /\ stableb_gen 2 zf pu 17 d_sub = true.
+Proof. intros [] []; repeat split; vm_compute; reflexivity. Qed.
 
-Lemma negzero_variants :
-  stableb_gen false false 17 d_negzero = false /\ stableb_gen true false 17 d_negzero = false /\
-  stableb_gen false true 17 d_negzero = true /\ stableb_gen true true 17 d_negzero = true.
-Proof. repeat split; vm_compute; reflexivity. Qed.
+Lemma negzero_variants : forall pu,
+  stableb_gen 0 false pu 17 d_negzero = false /\ stableb_gen 2 false pu 17 d_negzero = false /\
+  stableb_gen 0 true pu 17 d_negzero = true /\ stableb_gen 2 true pu 17 d_negzero = true.
+Proof. intros []; repeat split; vm_compute; reflexivity. Qed.
 
 (* ... and for the reader of the current source (Gen/Formats.v records which
    rules it has): the literal is read back iff the rule is present *)
-Lemma subnormal_current : dlit_okb (ctx 10 17) d_sub = tok_accepts_underflow.
+Lemma subnormal_current : dlit_okb (ctx 10 17) d_sub = negb (tok_erange_rule =? 0)%Z.
 Proof. vm_compute. reflexivity. Qed.
 Lemma negzero_current : dlit_okb (ctx 10 17) d_negzero = tok_zero_via_strtod.
 Proof. vm_compute. reflexivity. Qed.
